@@ -869,7 +869,7 @@ def run_writer(case, sched):
     spec = case["spec"]
     td = build_tree(spec)
     op = case["writer"]
-    tmp = tempfile.mkdtemp(prefix="c12-w-") if case["prefix"] or op == "consolidate-file" else None
+    tmp = tempfile.mkdtemp(prefix="c12-w-", dir=M.SCRATCH) if case["prefix"] or op == "consolidate-file" else None
     nt = 0 if sched is None else case["threads"]
     if op.startswith("consolidate") and sched is None:
         nt = case.get("single_threads", 0)
@@ -1066,7 +1066,7 @@ class RealRunner:
 
     def __init__(self, cases, budget):
         self.cases = cases
-        self.dir = tempfile.mkdtemp(prefix="c12-mp-")
+        self.dir = tempfile.mkdtemp(prefix="c12-mp-", dir=M.SCRATCH)
         self.inp = os.path.join(self.dir, "in.json")
         self.out = os.path.join(self.dir, "out.json")
         json.dump(cases, open(self.inp, "w"))
